@@ -98,9 +98,10 @@ pub trait MapValidVec<T: IsNone>: Vec1View<T> {
                     .to_trust(len),
             ),
             _ => Box::new(self.titer().map(|v| {
-                // x / x - 1: null for a null element and for a zero base
-                if v.not_none() && (v.cast() != 0.) {
-                    0.
+                // x / x - 1: null for a null element and for a zero base (and for an infinite one)
+                if v.not_none() {
+                    let x: f64 = v.cast();
+                    if x != 0. { x / x - 1. } else { f64::NAN }
                 } else {
                     f64::NAN
                 }
